@@ -15,6 +15,7 @@
 (*   <<"ACK">>        SETTINGS acknowledgement                              *)
 (*   <<"RESP", s>>    response (HEADERS [+DATA] with END_STREAM)            *)
 (*   <<"PONG">>       PING acknowledgement (to a PING of the alphabet)      *)
+(*   <<"RESP431", s>> the server's own 431 (header list too long)           *)
 (* ga: "none" | "graceful" (the client sent GOAWAY: the server answered     *)
 (* GOAWAY(NO_ERROR), serves what is open, discards frames of newer streams) *)
 (* | "error" (everything is discarded; in graceful state a connection error *)
@@ -89,6 +90,10 @@ HeadersComplete(s, es, kind) ==
   ELSE IF cur + 1 > AdvMax THEN
        /\ maxID' = s
        /\ out' = <<<<"S", s, IF unacked = 0 THEN "PE" ELSE "RS">>>>
+       /\ UNCHANGED <<saw, cur, unacked, ga, inMap, ms, trailer, handler, started>>
+  ELSE IF kind = "toolong" THEN   \* header list above the limit (MetaHeadersFrame.Truncated): the stream is created and answered with 431 by the
+       \* server itself - the request never reaches the handler; a stream the client left open is reset (NO_ERROR) behind the response
+       /\ maxID' = s /\ out' = (IF es THEN <<<<"RESP431", s>>>> ELSE <<<<"RESP431", s>>, <<"S", s, "NO">>>>)
        /\ UNCHANGED <<saw, cur, unacked, ga, inMap, ms, trailer, handler, started>>
   ELSE IF kind = "selfdep" THEN   \* stream is created, then RST written -> closed again
        /\ maxID' = s /\ out' = <<<<"S", s, "PE">>>>
@@ -194,7 +199,7 @@ HandlerFinish(s) ==
 \* which (type, stream, flags, kind) combinations are frames of the alphabet
 InAlphabet(type, s, es, eh, kind) ==
               /\ (type = "SETTINGS" => s = 0 /\ kind \in {"ok", "ack", "bad", "badwin"} /\ es = FALSE /\ eh = FALSE)
-              /\ (type = "HEADERS" => kind \in {"ok", "malformed", "selfdep", "clbig", "clsmall"} /\ (kind # "ok" => eh))     \* defective blocks are single-frame blocks
+              /\ (type = "HEADERS" => kind \in {"ok", "malformed", "selfdep", "clbig", "clsmall", "toolong"} /\ (kind # "ok" => eh))     \* defective blocks are single-frame blocks
               \* clbig: a well-formed block that declares a content-length larger than any body this alphabet sends (DATA carries 3 octets):
               \* END_STREAM then comes "short" - the request body fails for the handler, the stream state machine is the same
               /\ (type = "CONT" => kind = "ok" /\ es = FALSE)      \* malformed blocks are exercised as single-frame blocks
@@ -207,7 +212,7 @@ InAlphabet(type, s, es, eh, kind) ==
 ClientFrame(type, s, es, eh, kind) == InAlphabet(type, s, es, eh, kind) /\ Frame(type, s, es, eh, kind)
 
 Next == \/ \E type \in {"SETTINGS", "HEADERS", "CONT", "DATA", "RST", "WU", "PRIORITY", "PUSH", "UNKNOWN", "PING", "GOAWAY"},
-              s \in Ids \cup {0}, es \in BOOLEAN, eh \in BOOLEAN, kind \in {"ok", "ack", "bad", "badwin", "malformed", "selfdep", "clbig", "clsmall", "zero", "overflow"} :
+              s \in Ids \cup {0}, es \in BOOLEAN, eh \in BOOLEAN, kind \in {"ok", "ack", "bad", "badwin", "malformed", "selfdep", "clbig", "clsmall", "toolong", "zero", "overflow"} :
               ClientFrame(type, s, es, eh, kind)
         \/ \E s \in Ids : HandlerFinish(s)
 Spec == Init /\ [][Next]_vars
